@@ -1,13 +1,21 @@
 #!/bin/sh
-# usage: tools_mut.sh <patchfile|-e 'sed expr' file> -- check args...   (development helper: scratch copy of /repo under /tmp)
-set -e
+# development helper: scratch copy of /repo under /tmp, one textual replacement or a patch, run a check against it.
+# usage: tools_mut.sh -r <file> <old> <new> -- <check args>   |   tools_mut.sh <patchfile> -- <check args>
 W=/tmp/mut/w$$
 rm -rf $W; mkdir -p $W
 rsync -a --exclude .git --exclude tests/data /repo/ $W/
 ln -s /repo/tests/data $W/tests/data
-if [ "$1" = "-e" ]; then sed -i "$2" $W/$3; shift 3; else (cd $W && patch -p1 -s < $1); shift 1; fi
+if [ "$1" = "-r" ]; then
+  python3 - "$W/$2" "$3" "$4" <<'PY' || { rm -rf $W; exit 9; }
+import sys
+p,old,new=sys.argv[1:4]
+s=open(p).read()
+if old not in s: print("MUTATION TEXT NOT FOUND"); sys.exit(1)
+open(p,'w').write(s.replace(old,new,1))
+PY
+  shift 4
+else (cd $W && patch -p1 -s < $1) || { rm -rf $W; exit 9; }; shift 1; fi
 shift
-(cd $W && diff -ru /repo/demeter demeter | head -30) || true
 cd /verif && VERIF_REPO=$W ./check "$@" --no-evidence; rc=$?
 rm -rf $W
 exit $rc
